@@ -149,7 +149,7 @@ def aff_congruent(a, b, m):
 
 class St:
     """one disjunct of abstract state"""
-    __slots__ = ('frames', 'iv', 'rel', 'objs', 'discr', 'trace', 'loops', 'dead', 'notes')
+    __slots__ = ('frames', 'iv', 'rel', 'objs', 'discr', 'trace', 'loops', 'dead', 'notes', 'lin')
 
     def __init__(self):
         self.frames = {}
@@ -161,6 +161,7 @@ class St:
         self.loops = {}
         self.dead = False
         self.notes = ()
+        self.lin = ()     # assumed linear facts: tuple of (Aff, lo, hi)
 
     def clone(self):
         s = St()
@@ -172,6 +173,7 @@ class St:
         s.trace = self.trace
         s.loops = dict(self.loops)
         s.notes = self.notes
+        s.lin = self.lin
         return s
 
 
@@ -217,6 +219,21 @@ def get_iv(st, vid):
     g = GRANGE.get(vid)
     if g is not None:
         return g
+    # a value defined in another path's state: recompute from its (global) defining term in this state
+    t = TERM.get(vid)
+    if t is not None:
+        st.iv[vid] = (-INF, INF)   # cycle guard
+        r = eval_term(st, t)
+        if r is None:
+            r = (-INF, INF)
+        a = AFF.get(vid)
+        if a is not None and not a.mod and vid not in a.co:
+            e = _eval_direct(st, a)
+            r = (max(r[0], e[0]), min(r[1], e[1]))
+        if r[0] > r[1]:
+            r = (-INF, INF)
+        st.iv[vid] = r
+        return r
     return (-INF, INF)
 
 
@@ -590,6 +607,14 @@ def eval_aff(st, a, depth=3):
     if a is None or a.mod:
         return None
     lo, hi = _eval_direct(st, a)
+    for (g, glo, ghi) in st.lin:
+        d = aff_add(a, g, -1)
+        if d is not None and not d.co and not d.mod:
+            lo, hi = max(lo, glo + d.c0), min(hi, ghi + d.c0)
+        else:
+            d = aff_add(a, g)
+            if d is not None and not d.co and not d.mod:
+                lo, hi = max(lo, d.c0 - ghi), min(hi, d.c0 - glo)
     if depth > 0:
         for s, c in list(a.co.items()):
             for (x, cc, q, r) in TRIPLES.get(s, ()):
